@@ -170,8 +170,12 @@ def run_c20(tier, seed):
         if 'ok' in r['lines']:
             r['lines'] = {'ok': ''.join(l + '\n' for l in r['lines']['ok'])}
         if shaped_i:
-            if o['lines'] != r['lines']:
-                oc.disagreements.append(dict(rec, what='inspect() output', impl=o['lines'], model=r['lines']))
+            # wording of inspect() is not part of the property: compare "raised?" and which named IDs are mentioned
+            proj_i = (lambda L: ('crash', L['crash']) if 'crash' in L else ('ok', [x for x in r['mention'] if x in L['ok']]))
+            if proj_i(o['lines']) != proj_i(r['lines']):
+                oc.disagreements.append(dict(rec, what='inspect(): raised? / named IDs mentioned', impl=o['lines'], model=r['lines']))
+            elif o['lines'] != r['lines']:
+                oc.count('info:inspect-wording-differs-from-model')
             bad = []
             if 'ok' not in o['lines']:
                 bad.append('inspect() raised ' + str(o['lines']))
@@ -212,8 +216,7 @@ def replay(pid, fl):
     if r.get('shaped_inspect'):
         if 'ok' in r['lines']:
             r['lines'] = {'ok': ''.join(l + '\n' for l in r['lines']['ok'])}
-        bad = bad or o['lines'] != r['lines'] or 'ok' not in o['lines'] or \
-            any(x not in o['lines']['ok'] for x in r['mention'])
+        bad = bad or 'ok' not in o['lines'] or any(x not in o['lines']['ok'] for x in r['mention'])
     if bad:
         print(f'VIOLATION property={pid} replay=(this file): still fails on the current tree')
         return 1
